@@ -155,12 +155,14 @@ def run_shard(spec, R):
             aa_key = "C04:anderson_singular_least_squares" if (c["aa"] > 0 and cap.aa_singular) else None
             # (a) mass balance by the loop divergence
             res = M.divergence(flux) - f_flat
-            if backend != "direct" and float(np.max(np.abs(res))) > mb_tol * fscale and any(
+            if float(np.max(np.abs(res))) > mb_tol * fscale and any(
                     x.get("contrast", 1.0) > 1e10 and x.get("residual", 0.0) > mb_tol * fscale for x in cap.linear_calls):
-                # 'to linear-solver precision': the iterative back-end itself stalled on a system whose
-                # coefficients span > 10 decades (regularised mobility on vanishing fluxes); C08 judges the
-                # back-ends on well-conditioned systems
-                R.skip("mass_balance:iterative_backend_stalled_on_degenerate_mobility")
+                # 'to linear-solver precision': the linear back-end itself (direct or iterative) left a large
+                # residual on a system whose coefficients span > 10 decades (eps-regularised mobility on exactly
+                # vanishing fluxes: the backward error eps*|A|*|x| of even a stable LU is O(1) there). The
+                # monitor measured that residual on the library's own matrix. C08 judges the back-ends on
+                # well-conditioned systems.
+                R.skip("mass_balance:linear_backend_precision_lost_on_degenerate_mobility")
                 return None
             R.check(float(np.max(np.abs(res))) <= mb_tol * fscale, "mass_balance",
                     lambda: {**det, "max_residual": float(np.max(np.abs(res))), "scale": fscale, "aa_amplification": cap.aa_amplification}, key=aa_key, group=grp)
